@@ -41,6 +41,27 @@ func (c *CapList) Capture(values []string) error {
 	return nil
 }
 
+// TextList is a field type implemented by user code (encoding.TextUnmarshaler): it appends every text it is given.
+type TextList struct{ V []string }
+
+func (c *TextList) UnmarshalText(b []byte) error {
+	c.V = append(c.V, string(b))
+	return nil
+}
+
+// CIface is an interface type whose production is user code registered with participle.ParseTypeWith: it takes exactly one
+// token with Next() and yields a PWord value.
+type CIface interface{}
+
+func parseCIface(lex *lexer.PeekingLexer) (CIface, error) {
+	t := lex.Peek()
+	if t.EOF() {
+		return nil, participle.NextMatch
+	}
+	lex.Next()
+	return PWord{W: t.Value}, nil
+}
+
 // PWord is a grammar node implemented by user code (participle.Parseable): it takes exactly one token with Next().
 type PWord struct {
 	W string
@@ -137,6 +158,14 @@ func buildWith(g *gGrammar, k int, extra ...participle.Option) (b *built, err er
 				t = ifaces[arg]
 			case "unions":
 				t = reflect.SliceOf(ifaces[arg])
+			case "cnode":
+				t = reflect.TypeOf((*CIface)(nil)).Elem()
+			case "cnodes":
+				t = reflect.SliceOf(reflect.TypeOf((*CIface)(nil)).Elem())
+			case "textu":
+				t = reflect.TypeOf(TextList{})
+			case "pstring":
+				t = reflect.PtrTo(reflect.TypeOf(""))
 			case "unode":
 				t = reflect.TypeOf(&PWord{})
 			case "unodes":
@@ -203,6 +232,15 @@ func buildWith(g *gGrammar, k int, extra ...participle.Option) (b *built, err er
 	if g.CI {
 		opts = append(opts, participle.CaseInsensitive("Ident"))
 	}
+	for _, p := range g.Prods {
+		for _, f := range p.Fields {
+			if f.Kind == "cnode" || f.Kind == "cnodes" {
+				opts = append(opts, participle.ParseTypeWith(parseCIface))
+				goto customDone
+			}
+		}
+	}
+customDone:
 	opts = append(opts, extra...)
 	if rootIsUnion {
 		// the union itself as the root grammar type
@@ -270,6 +308,10 @@ func canon(names map[reflect.Type]string, v reflect.Value, toks map[lexer.Positi
 			} else {
 				fmt.Fprintf(sb, "pos%d", toks[p])
 			}
+			return
+		}
+		if v.Type() == reflect.TypeOf(TextList{}) {
+			canon(names, v.Field(0), toks, sb)
 			return
 		}
 		if v.Type() == reflect.TypeOf(CapList{}) {
@@ -764,7 +806,7 @@ func traceLines(text string) string {
 			kind = "look"
 		case gs == "URoot" || gs == "U0" || gs == "U1" || gs == "U2" || gs == "U3":
 			kind = "union"
-		case strings.HasSuffix(gs, "PWord"):
+		case strings.HasSuffix(gs, "PWord") || gs == "CIface":
 			kind = "user"
 		}
 		stack = append(stack, open{d, kind == "once"})
